@@ -39,6 +39,41 @@ Sgn(x) == IF x > 0 THEN 1 ELSE IF x < 0 THEN -1 ELSE 0
 \* p strictly inside the circle through a, b, c (any winding; FALSE for collinear a, b, c)
 InCircleStrict(a, b, c, p) == Sgn(Orient(a, b, c)) * Sgn(InCircleDet(a, b, c, p)) > 0
 
+(* Anisotropic copies.  The real input may be the lattice stretched along  *)
+(* one axis: (x * sx, y * sy) with sx, sy powers of two, one of them 1.    *)
+(* Orientation signs do not change; the in-circle determinant of the       *)
+(* stretched points is sx * sy * (sx^2 * DX + sy^2 * DY), where DX (DY) is *)
+(* the determinant whose lifted column holds only the squared x (y)        *)
+(* differences.  |DX|, |DY| <= 6*10^8; the sign of u*DX + v*DY (u = sx^2,  *)
+(* v = sy^2) is found by one floor division, never leaving int32.          *)
+InCircleDX(a, b, c, p) ==
+    LET ax == a[1] - p[1]
+        ay == a[2] - p[2]
+        bx == b[1] - p[1]
+        by == b[2] - p[2]
+        cx == c[1] - p[1]
+        cy == c[2] - p[2]
+    IN (ax * ax) * (bx * cy - cx * by) - (bx * bx) * (ax * cy - cx * ay) + (cx * cx) * (ax * by - bx * ay)
+InCircleDY(a, b, c, p) ==
+    LET ax == a[1] - p[1]
+        ay == a[2] - p[2]
+        bx == b[1] - p[1]
+        by == b[2] - p[2]
+        cx == c[1] - p[1]
+        cy == c[2] - p[2]
+    IN (ay * ay) * (bx * cy - cx * by) - (by * by) * (ax * cy - cx * ay) + (cy * cy) * (ax * by - bx * ay)
+\* sign of s * D + E for s >= 1:  E = s * q + r with 0 <= r < s
+SgnMulAdd(s, D, E) ==
+    LET q == E \div s
+        r == E % s
+    IN IF D + q > 0 THEN 1 ELSE IF D + q < 0 THEN -1 ELSE Sgn(r)
+\* sign of the in-circle determinant of the stretched points (u = sx^2, v = sy^2, one of them 1)
+InCircleSgnS(a, b, c, p, u, v) ==
+    IF u = 1 /\ v = 1 THEN Sgn(InCircleDet(a, b, c, p))
+    ELSE IF v = 1 THEN SgnMulAdd(u, InCircleDX(a, b, c, p), InCircleDY(a, b, c, p))
+    ELSE SgnMulAdd(v, InCircleDY(a, b, c, p), InCircleDX(a, b, c, p))
+InCircleStrictS(a, b, c, p, u, v) == Sgn(Orient(a, b, c)) * InCircleSgnS(a, b, c, p, u, v) > 0
+
 (* --------------------------- the antecedent ---------------------------- *)
 Distinct(P) == \A i \in DOMAIN P : \A j \in (i + 1)..Len(P) : P[i] # P[j]
 NoThreeCollinear(P) ==
@@ -47,6 +82,10 @@ NoFourCocircular(P) ==
     \A i \in DOMAIN P : \A j \in (i + 1)..Len(P) : \A k \in (j + 1)..Len(P) : \A m \in (k + 1)..Len(P) :
         InCircleDet(P[i], P[j], P[k], P[m]) # 0
 GeneralPosition(P) == Len(P) >= 3 /\ Distinct(P) /\ NoThreeCollinear(P) /\ NoFourCocircular(P)
+NoFourCocircularS(P, u, v) ==
+    \A i \in DOMAIN P : \A j \in (i + 1)..Len(P) : \A k \in (j + 1)..Len(P) : \A m \in (k + 1)..Len(P) :
+        InCircleSgnS(P[i], P[j], P[k], P[m], u, v) # 0
+GeneralPositionS(P, u, v) == Len(P) >= 3 /\ Distinct(P) /\ NoThreeCollinear(P) /\ NoFourCocircularS(P, u, v)
 
 (* --------------------------- the consequents --------------------------- *)
 Corners(t) == {t[1], t[2], t[3]}
@@ -101,6 +140,10 @@ EmptyCircle(P, T) ==
     \A k \in DOMAIN T : \A i \in DOMAIN P \ Corners(T[k]) :
         ~InCircleStrict(P[T[k][1]], P[T[k][2]], P[T[k][3]], P[i])
 
+EmptyCircleS(P, T, u, v) ==
+    \A k \in DOMAIN T : \A i \in DOMAIN P \ Corners(T[k]) :
+        ~InCircleStrictS(P[T[k][1]], P[T[k][2]], P[T[k][3]], P[i], u, v)
+
 (* V: the vertex positions of the result projected to the lattice (flat:   *)
 (* every y of (x, 0, y) is 0; exact: every coordinate is on the lattice).  *)
 UsesInput(P, V, flat, exact, T) == flat /\ exact /\ V = P /\ IndicesOK(P, T)
@@ -111,5 +154,13 @@ Judge(P, V, flat, exact, T) ==
     ELSE IF ~UsesInput(P, V, flat, exact, T) THEN {"C20.UsesInput"}
     ELSE (IF Winding(P, T) THEN {} ELSE {"C20.Winding"})
          \cup (IF EmptyCircle(P, T) THEN {} ELSE {"C20.EmptyCircle"})
+         \cup (IF (\A k \in DOMAIN T : OrientOf(P, T[k]) # 0) => NoOverlap(P, T) THEN {} ELSE {"C20.NoOverlap"})
+
+\* the same for an input stretched by sqrt(u) along x and sqrt(v) along y (P, V on the unstretched lattice)
+JudgeS(P, V, flat, exact, T, u, v) ==
+    IF ~GeneralPositionS(P, u, v) THEN {}
+    ELSE IF ~UsesInput(P, V, flat, exact, T) THEN {"C20.UsesInput"}
+    ELSE (IF Winding(P, T) THEN {} ELSE {"C20.Winding"})
+         \cup (IF EmptyCircleS(P, T, u, v) THEN {} ELSE {"C20.EmptyCircle"})
          \cup (IF (\A k \in DOMAIN T : OrientOf(P, T[k]) # 0) => NoOverlap(P, T) THEN {} ELSE {"C20.NoOverlap"})
 =============================================================================
